@@ -66,15 +66,6 @@ def searchNode (cmp : K → K → Int) (k : K) : List (K × V) → Nat × Bool
     else if searchEq c then (0, true)
     else let r := searchNode cmp k rest; (r.1 + 1, r.2)
 
-/-- number of comparator calls `searchNode` makes. -/
-def searchCost (cmp : K → K → Int) (k : K) : List (K × V) → Nat
-  | [] => 0
-  | (k', _) :: rest =>
-    let c := cmp k k'
-    if searchLess c then 1
-    else if searchEq c then 1
-    else searchCost cmp k rest + 1
-
 /-- first index whose key satisfies `p (cmp k key)` (the loops of `insertIntoLeaf` and of the
 amalgam's `extraIdx`), `length` if none. -/
 def lowerIdx (p : Int → Bool) (cmp : K → K → Int) (k : K) : List (K × V) → Nat
@@ -184,22 +175,6 @@ def lookup (cmp : K → K → Int) (k : K) (x : Node K V) : Option (K × V) :=
       match h : kids[i]? with
       | none => none
       | some c => lookup cmp k c
-termination_by sizeOf x
-decreasing_by
-  have := List.sizeOf_lt_of_mem (List.mem_of_getElem? h)
-  simp only [Node.mk.sizeOf_spec]
-  omega
-
-/-- number of comparator calls of `Get` / `Contains`. -/
-def lookupCost (cmp : K → K → Int) (k : K) (x : Node K V) : Nat :=
-  match x with
-  | .mk _ kvs kids =>
-    match searchNode cmp k kvs with
-    | (_, true) => searchCost cmp k kvs
-    | (i, false) =>
-      match h : kids[i]? with
-      | none => searchCost cmp k kvs
-      | some c => searchCost cmp k kvs + lookupCost cmp k c
 termination_by sizeOf x
 decreasing_by
   have := List.sizeOf_lt_of_mem (List.mem_of_getElem? h)
